@@ -222,16 +222,19 @@ def isUtcTimestamp (tz : Option (List Char)) : R Bool :=
 /-- `DateTime::timestamp()` -/
 def Instant.timestamp (t : Instant) : Int := t.days * 86400 + t.secs
 
-/-- the `match self.unit` of `parse_str_to_timestamp`: chrono's `timestamp()`, `timestamp_millis()`,
-`timestamp_micros()` (exact inside chrono's range) and the checked `timestamp_nanos_opt()` -/
-def instantToUnits (u : TimeUnit) (t : Instant) : R Int :=
-  let v : Int :=
-    match u with
-    | .second => t.timestamp
-    | _ => t.timestamp * u.perSec + (t.nanos / u.nsPer : Nat)
+/-- chrono's `timestamp()`, `timestamp_millis()`, `timestamp_micros()`, `timestamp_nanos_opt()` as exact integers -/
+def instantUnitsValue (u : TimeUnit) (t : Instant) : Int :=
   match u with
-  | .nanosecond => if inI64 v then .ok v else fail "Timestamp cannot be converted to nanoseconds"
-  | _ => if inI64 v then .ok v else panic "chrono timestamp_millis / timestamp_micros overflow"
+  | .second => t.timestamp
+  | _ => t.timestamp * u.perSec + (t.nanos / u.nsPer : Nat)
+
+/-- the `match self.unit` of `parse_str_to_timestamp`: `timestamp()`, `timestamp_millis()`, `timestamp_micros()`
+(i64 arithmetic, exact inside chrono's range) and the checked `timestamp_nanos_opt()` -/
+def instantToUnits (u : TimeUnit) (t : Instant) : R Int :=
+  if inI64 (instantUnitsValue u t) then .ok (instantUnitsValue u t)
+  else match u with
+    | .nanosecond => fail "Timestamp cannot be converted to nanoseconds"
+    | _ => panic "chrono timestamp_millis / timestamp_micros overflow"
 
 /-- `TimestampBuilder::serialize_str` -/
 def timestampOfString (u : TimeUnit) (utc : Bool) (s : List Char) : R Int := do
